@@ -203,15 +203,20 @@ def replay(feature, h, keep_dir):
     cmd = base_cmd(feature) + ["-Z", "concrete-playback", "--concrete-playback=print",
                                "--harness", f"{h['module']}::{h['name']}", "--exact"]
     rc, out, wall, to = _run(cmd, KANI_DIR, h["cap"] + 300, mem_gb=float(h.get("mem", "14")))
-    m = PLAYBACK_RE.search(out)
+    blocks = [m.group("body") for m in PLAYBACK_RE.finditer(out)]
     info = {"generated": False, "reproduced": False, "wall_s": round(wall, 1)}
-    if not m:
+    # Kani also emits playback tests for satisfied cover! statements; only the tests generated
+    # for failed assertions / checks are counterexamples
+    blocks = [b for b in blocks if "Check for `cover`" not in b]
+    if not blocks:
         info["note"] = "no concrete playback test was produced"
         return info
-    body = m.group("body")
-    tname = re.search(r"fn (kani_concrete_playback_\w+)", body).group(1)
+    blocks = blocks[:4]
+    body = "\n\n".join(blocks)
+    tnames = re.findall(r"fn (kani_concrete_playback_\w+)", body)
+    tname = "kani_concrete_playback"
     vals = re.findall(r"//\s*(.+)\n\s*vec!\[", body)
-    info.update({"generated": True, "test": tname, "values": vals[:32]})
+    info.update({"generated": True, "tests": tnames, "values": vals[:32]})
     rdir = os.path.join(KANI_DIR, "src", "replay")
     os.makedirs(rdir, exist_ok=True)
     rfile = os.path.join(rdir, h["module"] + ".rs")
@@ -224,7 +229,7 @@ def replay(feature, h, keep_dir):
                                  KANI_DIR, 3600, env=env)
     info["playback_wall_s"] = round(wall2, 1)
     ran = re.search(r"test result: (\w+)\. (\d+) passed; (\d+) failed", out2)
-    if ran and int(ran.group(3)) >= 1:
+    if ran and int(ran.group(3)) >= 1 and not to2:
         info["reproduced"] = True
         pm = re.search(r"panicked at ([^\n]+)\n([^\n]*)", out2)
         if pm:
